@@ -6,7 +6,9 @@
 // One generator (route table + request batch) is written against an abstract source of
 // small integers, so that the same construction is driven by rapid (TestVerifC09Router),
 // by the bytes of a native fuzz input (FuzzVerifC09Router) and — for the small-table
-// mode — by plain enumeration (TestVerifC09Exhaustive).  Every generated table stays
+// mode — by plain enumeration (TestVerifC09Exhaustive); TestVerifC09Concurrent serves a
+// generated batch from many goroutines on one router and holds every response to the
+// verdict of the same request served alone.  Every generated table stays
 // inside the statement's precondition *by construction*: the name of a variable segment
 // is a function of the pattern prefix in front of it (and contains its depth, so one
 // pattern never uses a name twice).
@@ -30,8 +32,12 @@ import (
 	"os"
 	"path"
 	"path/filepath"
+	"runtime"
 	"sort"
+	"strconv"
 	"strings"
+	"sync"
+	"sync/atomic"
 	"testing"
 
 	"github.com/zeromicro/go-zero/core/logx"
@@ -261,7 +267,10 @@ func dirtyPath(s source, segs []string) string {
 	return b.String()
 }
 
-func genCase(s source) caseT {
+func genCase(s source) caseT { return genCaseN(s, 1, 10) }
+
+// genCaseN is genCase with minReq..maxReq requests (same draws, same order).
+func genCaseN(s source, minReq, maxReq int) caseT {
 	var c caseT
 	type att struct {
 		method string
@@ -295,7 +304,7 @@ func genCase(s source) caseT {
 			kindsSeen = append(kindsSeen, a.kinds)
 		}
 	}
-	nreq := 1 + s.intn(10, "nreq")
+	nreq := minReq + s.intn(maxReq-minReq+1, "nreq")
 	for i := 0; i < nreq; i++ {
 		var segs []string
 		if len(atts) > 0 && s.intn(10, "pathMode") <= 6 {
@@ -561,7 +570,15 @@ type harness struct {
 	rt    httpx.Router
 	trees map[string]*search.Tree
 	calls []callRec
+	// concurrent: requests are being served from several goroutines; handlers then report
+	// only through the (per-request) response headers, never through calls.
+	concurrent bool
 }
+
+const (
+	hdrRoute = "X-Verif-Route" // added once per handler invocation: route id
+	hdrVars  = "X-Verif-Vars"  // the variables that invocation received
+)
 
 func newHarness() *harness {
 	return &harness{rt: router.NewRouter(), trees: map[string]*search.Tree{}}
@@ -573,7 +590,11 @@ func (h *harness) handler(id int) http.Handler {
 		for k, v := range pathvar.Vars(r) {
 			vars[k] = v
 		}
-		h.calls = append(h.calls, callRec{id, vars})
+		if !h.concurrent {
+			h.calls = append(h.calls, callRec{id, vars})
+		}
+		w.Header().Add(hdrRoute, strconv.Itoa(id))
+		w.Header().Add(hdrVars, renderVars(vars))
 		w.WriteHeader(299)
 	})
 }
@@ -660,6 +681,17 @@ type reqInfo struct {
 	clean   string
 }
 
+// newRequest builds an httptest request and sets method, URL.Path and query directly.
+func newRequest(rq reqT) *http.Request {
+	r := httptest.NewRequest(http.MethodGet, "http://verif.test/", nil)
+	r.Method = rq.method
+	r.URL.Path = rq.path
+	r.URL.RawPath = ""
+	r.URL.RawQuery = rq.query
+	r.RequestURI = (&url.URL{Path: rq.path, RawQuery: rq.query}).RequestURI() // what a server would have seen on the wire
+	return r
+}
+
 // serve sends one request through ServeHTTP and compares with the reference matcher.
 func (h *harness) serve(m *model, rq reqT, fail failFn) reqInfo {
 	segs := cleanSegs(rq.path)
@@ -670,12 +702,7 @@ func (h *harness) serve(m *model, rq reqT, fail failFn) reqInfo {
 	exp := m.expect(rq.method, segs)
 	info := reqInfo{exp: exp, unclean: cp != rq.path, clean: cp}
 
-	r := httptest.NewRequest(http.MethodGet, "http://verif.test/", nil)
-	r.Method = rq.method
-	r.URL.Path = rq.path
-	r.URL.RawPath = ""
-	r.URL.RawQuery = rq.query
-	r.RequestURI = (&url.URL{Path: rq.path, RawQuery: rq.query}).RequestURI() // what a server would have seen on the wire
+	r := newRequest(rq)
 	w := httptest.NewRecorder()
 	h.calls = h.calls[:0]
 	if p := safely(func() { h.rt.ServeHTTP(w, r) }); p != nil {
@@ -914,6 +941,237 @@ func TestVerifC09Router(t *testing.T) {
 		} else if !sampled {
 			sampled = true
 			st.Sample(fmt.Sprintf("(trivial) routes[%s] %d requests", table, len(c.reqs)))
+		}
+	})
+}
+
+// ---------------------------------------------------------------- concurrent serving
+
+// The statement is per request, and a router serves requests of many connections at once:
+// the verdict of a request must not depend on which other requests are in flight.  The
+// table is registered first (sequentially, as the statement does not require registration
+// to be concurrent with serving), the reference verdict of every request of a batch is
+// computed once, then G goroutines fire requests of the batch at the one shared router and
+// each compares what it got (handler id, variables, status, Allow set) with that verdict.
+
+// verdictSig renders the reference verdict in the form observedSig produces.
+func verdictSig(e expectT) string {
+	switch e.kind {
+	case outDispatch:
+		return fmt.Sprintf("dispatched to [#%d] with [%s], status 299", e.route.id, renderVars(e.vars))
+	case outNotAllowed:
+		return fmt.Sprintf("405, Allow %v", e.allow)
+	default:
+		return "404"
+	}
+}
+
+func observedSig(w *httptest.ResponseRecorder) string {
+	if ids := w.Header().Values(hdrRoute); len(ids) > 0 {
+		for i := range ids {
+			ids[i] = "#" + ids[i]
+		}
+		return fmt.Sprintf("dispatched to [%s] with [%s], status %d", strings.Join(ids, " "),
+			strings.Join(w.Header().Values(hdrVars), " "), w.Code)
+	}
+	if w.Code == http.StatusMethodNotAllowed {
+		set := map[string]bool{}
+		for _, line := range w.Header().Values("Allow") {
+			for _, f := range strings.Split(line, ",") {
+				if f = strings.TrimSpace(f); f != "" {
+					set[f] = true
+				}
+			}
+		}
+		have := make([]string, 0, len(set))
+		for k := range set {
+			have = append(have, k)
+		}
+		sort.Strings(have)
+		return fmt.Sprintf("405, Allow %v", have)
+	}
+	return strconv.Itoa(w.Code)
+}
+
+// lcg expands a rapid-drawn seed into a goroutine's private choice stream (rapid.T must not
+// be used from several goroutines); the run is a function of the drawn values only, up to
+// the scheduler.
+type lcg uint64
+
+func (x *lcg) intn(n int) int {
+	*x = *x*6364136223846793005 + 1442695040888963407
+	return int((uint64(*x) >> 33) % uint64(n))
+}
+
+func TestVerifC09Concurrent(t *testing.T) {
+	logx.Disable()
+	st := verifkit.New("concurrent")
+	defer st.Flush()
+	sampled := false
+	rapid.Check(t, func(t *rapid.T) {
+		st.Eval()
+		src := rapidSrc{t}
+		c := genCaseN(src, 20, 60)
+		h := newHarness()
+		m := &model{}
+		for i, rg := range c.regs {
+			h.register(m, i, rg, t.Fatalf)
+		}
+		// sequential pass: full oracle with messages; also fixes the verdicts
+		want := make([]string, len(c.reqs))
+		exps := make([]expectT, len(c.reqs))
+		for i, rq := range c.reqs {
+			exps[i] = h.serve(m, rq, t.Fatalf).exp
+			want[i] = verdictSig(exps[i])
+		}
+		// hot set: requests with different cleaned paths that are dispatched inside ONE
+		// method tree; goroutines pinned to different ones keep that tree's lookups overlapping
+		byMethod := map[string][]int{}
+		seenPath := map[string]bool{}
+		for i, rq := range c.reqs {
+			key := rq.method + " " + joinSegs(cleanSegs(rq.path))
+			if exps[i].kind == outDispatch && !seenPath[key] {
+				seenPath[key] = true
+				byMethod[rq.method] = append(byMethod[rq.method], i)
+			}
+		}
+		var hot []int
+		for _, mth := range validMethods { // fixed order
+			if len(byMethod[mth]) > len(hot) {
+				hot = byMethod[mth]
+			}
+		}
+		if len(hot) > 1 {
+			keep := 2 + src.intn(min(len(hot), 4)-1, "hotSize")
+			start := src.intn(len(hot)-keep+1, "hotStart")
+			hot = hot[start : start+keep]
+		}
+		g := 4 + src.intn(13, "goroutines")
+		rounds := 50 + src.intn(351, "rounds")
+		hotPct := []int{90, 100, 50, 0}[src.intn(4, "hotPct")]
+		if len(hot) < 2 {
+			hotPct = 0
+		}
+		jitter := src.intn(3, "jitter") // 0 none, 1 Gosched now and then, 2 Gosched after every request
+		seeds := make([]lcg, g)
+		for i := range seeds {
+			seeds[i] = lcg(rapid.Uint64().Draw(t, "goroutineSeed"))
+		}
+
+		var (
+			wg       sync.WaitGroup
+			stop     atomic.Bool
+			fired    atomic.Int64
+			mu       sync.Mutex
+			firstBad string
+		)
+		h.concurrent = true
+		for gi := 0; gi < g; gi++ {
+			wg.Add(1)
+			go func(gi int, rnd lcg) {
+				defer wg.Done()
+				for n := 0; n < rounds && !stop.Load(); n++ {
+					idx := rnd.intn(len(c.reqs))
+					if hotPct > 0 && rnd.intn(100) < hotPct {
+						idx = hot[gi%len(hot)]
+					}
+					rq := c.reqs[idx]
+					w := httptest.NewRecorder()
+					var got string
+					if p := safely(func() { h.rt.ServeHTTP(w, newRequest(rq)) }); p != nil {
+						got = fmt.Sprintf("panic: %v", p)
+					} else {
+						got = observedSig(w)
+					}
+					fired.Add(1)
+					if got != want[idx] {
+						mu.Lock()
+						if firstBad == "" {
+							firstBad = fmt.Sprintf("goroutine %d, its request no. %d: %s %q (cleaned %q)\n  got:  %s\n  want: %s",
+								gi, n, rq.method, rq.path, joinSegs(cleanSegs(rq.path)), got, want[idx])
+						}
+						mu.Unlock()
+						stop.Store(true)
+						return
+					}
+					if jitter == 2 || jitter == 1 && rnd.intn(4) == 0 {
+						runtime.Gosched()
+					}
+				}
+			}(gi, seeds[gi])
+		}
+		wg.Wait()
+		h.concurrent = false
+		st.ClassN("concurrent-requests", int(fired.Load()))
+		if firstBad != "" {
+			var hs []string
+			for _, i := range hot {
+				hs = append(hs, c.reqs[i].method+" "+c.reqs[i].path)
+			}
+			t.Fatalf("concurrent serving: a request got another verdict than the same request served alone (after %d concurrent requests; %d goroutines x %d requests, GOMAXPROCS=%d, hot %d%% on %v, jitter %d)\n%s\nroutes: %s\nhistory: %s",
+				fired.Load(), g, rounds, runtime.GOMAXPROCS(0), hotPct, hs, jitter, firstBad, m.table(), strings.Join(m.regLog, "; "))
+		}
+		// after the storm: the same requests, alone again (state left behind by overlapping lookups)
+		for _, rq := range c.reqs {
+			h.serve(m, rq, func(format string, a ...any) {
+				t.Fatalf("after %d concurrent requests, served alone again: "+format, append([]any{fired.Load()}, a...)...)
+			})
+		}
+
+		// coverage bookkeeping
+		routesOf := map[string]map[int]bool{} // method -> dispatched route ids in the batch
+		valuesOf := map[int]map[string]bool{} // route id -> distinct variable bindings
+		has404, has405 := false, false
+		for i, rq := range c.reqs {
+			switch exps[i].kind {
+			case outDispatch:
+				if routesOf[rq.method] == nil {
+					routesOf[rq.method] = map[int]bool{}
+				}
+				routesOf[rq.method][exps[i].route.id] = true
+				if valuesOf[exps[i].route.id] == nil {
+					valuesOf[exps[i].route.id] = map[string]bool{}
+				}
+				valuesOf[exps[i].route.id][renderVars(exps[i].vars)] = true
+			case outNotAllowed:
+				has405 = true
+			default:
+				has404 = true
+			}
+		}
+		multiRoute, multiValue := false, false
+		for _, rs := range routesOf {
+			if len(rs) >= 2 {
+				multiRoute = true
+			}
+		}
+		for _, vs := range valuesOf {
+			if len(vs) >= 2 {
+				multiValue = true
+			}
+		}
+		if multiRoute {
+			st.Class("batch:several-routes-of-one-method")
+		}
+		if multiValue {
+			st.Class("batch:one-route-several-variable-values")
+		}
+		if has404 {
+			st.Class("batch:has-404")
+		}
+		if has405 {
+			st.Class("batch:has-405")
+		}
+		if hotPct > 0 {
+			st.Class("plan:hot-set")
+		}
+		desc := fmt.Sprintf("routes[%s] batch of %d requests, %d goroutines x %d, hot %d%% of %d, jitter %d",
+			m.table(), len(c.reqs), g, rounds, hotPct, len(hot), jitter)
+		if multiRoute {
+			st.NonTrivial(desc)
+		} else if !sampled {
+			sampled = true
+			st.Sample("(trivial) " + desc)
 		}
 	})
 }
